@@ -244,20 +244,10 @@ def run_codec(case):
     return {"plain": plain, "diffs": diffs, "expr": expr}
 
 
-TUPLE_KEY_SIG = "save-raises-on-dict-attribute-with-tuple-key"
-
-
-def has_first_level_tuple_key(case):
-    """precise predicate of the known failing class: an attribute whose value is a dict with a key json.dumps rejects
-    (a tuple) at its first level: data_to_json copies the first-level items of a pickled dict into the JSON object"""
-    return any(spec[0] == "dict" and any(ks[0] == "tuple" for ks, _ in spec[1]) for _, spec in case["items"])
-
-
 def compare_codec(case, impl, mv):
     probs = []
     if "crash" in impl:
-        if has_first_level_tuple_key(case):
-            return [(TUPLE_KEY_SIG, "an attribute that is a dict with a tuple key cannot be saved (the model stores it as a pickled blob and restores it): " + impl["crash"])]
+        # (repaired in /repo by 90ec19a: a dict attribute with a tuple key made data_to_json raise; corpus-tuple-key-save-raises keeps the input)
         return [("oracle-json-codec-raises", impl["crash"])]
     if impl["diffs"]:
         probs.append(("oracle-json-codec-alters-attribute", "json_to_data(data_to_json(d)) differs from d: " + "; ".join(impl["diffs"][:3])))
@@ -557,13 +547,13 @@ def main():
             hist["models"].append(c["config"])
             distinct.add(c["config"] + str(c.get("seed")))
         for sig, msg in probs:
-            is_oracle = sig.startswith("oracle-") or sig == TUPLE_KEY_SIG
+            is_oracle = sig.startswith("oracle-")
             full = sig if is_oracle else "model-correspondence-" + sig
             if full in reported:
                 continue
             reported.add(full)
             chk.violation(full, msg, {"case": c, "problems": probs[:6], "correspondence": "harness/c09.py vs Model.JsonCodec.data_to_json"}, found_input=is_oracle)
-        if len(reported - {TUPLE_KEY_SIG}) >= 4:
+        if len(reported) >= 4:
             break
     chk.coverage["evaluations"] = len(cases)
     chk.coverage["traces_validated_against_impl"] = len(cases)
